@@ -85,6 +85,14 @@ def make_mutant(scratch, mut):
     s = s.replace(mut["old"], mut["new"], mut.get("count", 1))
     with open(p, "w") as f:
         f.write(s)
+    for extra in mut.get("also", []):
+        p2 = os.path.join(dst, extra["file"])
+        with open(p2) as f:
+            s2 = f.read()
+        if s2.count(extra["old"]) < 1:
+            raise RuntimeError("mutant %s: extra pattern not found in %s" % (mut["name"], extra["file"]))
+        with open(p2, "w") as f:
+            f.write(s2.replace(extra["old"], extra["new"], 1))
 
 
 def sensitivity(only, names=None):
